@@ -11,6 +11,7 @@ import (
 	"github.com/tdakkota/docker-logql/internal/zzverif/mockq"
 	"github.com/tdakkota/docker-logql/internal/zzverif/refmodel"
 	"github.com/tdakkota/docker-logql/internal/zzverif/vkit"
+	"github.com/tdakkota/docker-logql/internal/zzverif/vsched"
 )
 
 type c12Input struct {
@@ -22,6 +23,9 @@ type c12Input struct {
 	LVar  int     `json:"lvar"` // 0: L, 1: L - 2
 	RVar  int     `json:"rvar"` // 0: R, 1: R * 0.5, 2: R - 1
 	Range bool    `json:"range"`
+	// Bound > 0: the evaluation is repeated under every hash-map iteration order with at most Bound rotated
+	// iterations (the order in which the series of a step arrive on either side is map iteration order)
+	Bound int `json:"bound,omitempty"`
 }
 
 // sample seconds per (side, a): chosen so that the three steps see different counts (including none)
@@ -105,6 +109,48 @@ func c12Check(r *vkit.Run, in c12Input) bool {
 	return nonEmpty
 }
 
+// c12CheckOrders evaluates one vector-vector case under every map iteration order within in.Bound deviations.
+func c12CheckOrders(r *vkit.Run, in c12Input, replay []int) {
+	data, expr := c12Build(in)
+	start := (c09Base + 5) * sec
+	end, step := start, int64(0)
+	if in.Range {
+		end, step = start+15*sec, 5*sec
+	}
+	times := gridTimes(start, end, step)
+	expZ, _, _, _ := expectGrid(expr, data, times, refmodel.Convention{FalseIsZero: true})
+	expD, _, _, _ := expectGrid(expr, data, times, refmodel.Convention{FalseIsZero: false})
+	body := func(c *vsched.Ctx) {
+		r.BeginChoices("C12/map-order", in, c.Prefix())
+		res := evalEngineCtx(c, mockq.New(data), expr.Text(), start, end, time.Duration(step))
+		r.Eval()
+		why := compare(res, expZ, nil)
+		if why != "" {
+			if compare(res, expD, nil) == "" {
+				why = ""
+			}
+		}
+		if why != "" {
+			r.Fail("C12/map-order", in, c.TrimmedChoices(), map[string]any{"query": expr.Text(), "result": res.String()}, expZ,
+				fmt.Sprintf("%s with left a=%v right a=%v under a rotated map iteration order: %s", expr.Text(), in.L, in.R, why), "")
+		}
+		if c.Diverged != "" {
+			r.HarnessError("replay divergence: %s", c.Diverged)
+		}
+	}
+	if replay != nil {
+		body(vsched.NewCtx(replay))
+		return
+	}
+	st := vsched.Explore(in.Bound, 0, body, func(*vsched.Ctx) bool { return !r.Stop() })
+	r.Step(int(st.Points) + int(st.Executions))
+	r.Count("map_order_executions", st.Executions)
+	r.Count("executions_with_rotated_iteration", st.Deviating)
+	if st.Capped {
+		r.Cap("map-order exploration stopped early")
+	}
+}
+
 func c12Run(r *vkit.Run) {
 	arith := []string{"+", "-", "*", "/", "%", "^", "==", "!=", ">", ">=", "<", "<="}
 	all := append(append([]string(nil), arith...), "and", "or", "unless")
@@ -171,19 +217,39 @@ func c12Run(r *vkit.Run) {
 					}
 				}
 			}
+			// the order in which series arrive within a step is hash-map iteration order: every order within
+			// the deviation bound, for the pairs in which both sides carry at least two series
+			if len(l) >= 2 && len(rr) >= 2 {
+				bound := 1
+				if r.Thorough() {
+					bound = 2
+				}
+				for _, rg := range []bool{false, true} {
+					for _, op := range []string{"-", "/", ">", "and", "or", "unless"} {
+						c12CheckOrders(r, c12Input{L: l, R: rr, Op: op, Kind: "vv", RVar: 2, Range: rg, Bound: bound}, nil)
+					}
+				}
+			}
 			if nontrivial {
 				r.NonTrivial()
 			}
 			r.State(fmt.Sprint(l, rr))
 		}
 	}
-	r.Note("bounds", "left/right vectors = sum by (a) (count_over_time({side=..}[10s])) for every pair of subsets of a in {1,2,3} (equal, overlapping, disjoint, empty), optionally shifted/scaled to reach 0, negatives and fractions; vector-scalar and scalar-vector for 12 operators x scalars {0,2,-3,0.5}; vector-vector for 15 operators x 6 operand variants; instant and 4-step range in which series appear, persist and disappear on either side")
+	r.Note("bounds", "left/right vectors = sum by (a) (count_over_time({side=..}[10s])) for every pair of subsets of a in {1,2,3} (equal, overlapping, disjoint, empty), optionally shifted/scaled to reach 0, negatives and fractions; vector-scalar and scalar-vector for 12 operators x scalars {0,2,-3,0.5}; vector-vector for 15 operators x 6 operand variants; instant and 4-step range in which series appear, persist and disappear on either side; for the 16 pairs with >= 2 series on both sides, 6 operators x instant/range under every hash-map iteration order within 1 (thorough: 2) rotated iterations")
 }
 
 func c12Replay(r *vkit.Run, v vkit.Violation) *vkit.Violation {
 	var in c12Input
 	if err := json.Unmarshal(v.Input, &in); err != nil {
 		r.HarnessError("bad input: %v", err)
+	}
+	if v.Check == "C12/map-order" {
+		ch := v.Choices
+		if ch == nil {
+			ch = []int{}
+		}
+		return vkit.ReplayOne(r, func() { c12CheckOrders(r, in, ch) })
 	}
 	return vkit.ReplayOne(r, func() { c12Check(r, in) })
 }
